@@ -170,6 +170,13 @@ def _work(args):
         from contracts import wrapper_replay as WR
         from pyvc import driver
         from pyvc.symex import Unsupported
+        # several decorated functions in one process (the proofs and the explorer look at one at a time): three short scenarios on
+        # the real code, every tier
+        try:
+            from contracts import wrapper_explore as WE0
+            out['sibling'] = WE0.sibling_search(modname, clsname, _props_for_explorer(prop))
+        except Exception:
+            out['sibling'] = []
         case = W.Case(modfile, modname, safe, clsname)
         out['sha'] = case.sha
         if case.unsupported:
@@ -551,6 +558,16 @@ def check(prop, tier, seed, level_a_note=''):
                                      'found_by': 'bounded exploration of the real code (contracts/wrapper_explore.py)'})
             if n not in [x[0] for x in rep.violations]:
                 rep.violation(n, path, True)
+    nsib = 0
+    for res in results:
+        for v in res.get('sibling') or []:
+            nsib += 1
+            n = '%s.siblings/%s' % (res['case'], v['clause'])
+            path = common.replay_path(prop, n + '@history')
+            common.write_json(path, {'property': prop, 'obligation': n, 'replay_kind': 'history', 'history': v, 'message': v['message'],
+                                     'how_to_replay': './check --replay %s' % path, 'sources_sha256': shas,
+                                     'found_by': 'scenario with several decorated functions on the real code (contracts/wrapper_explore.sibling_probe)'})
+            rep.violation(n, path, True)
     for u in unsupported:
         cn = u.split(': ')[0]
         if not any(c['case'] == cn for c in bsum['cases']):
